@@ -129,4 +129,64 @@ def SegSt.hint (st : SegSt) : Nat := st.size.getD inconsistent
 /-- block encoding chosen by AppendWipToSegfile for a block that has the column -/
 def BlockOut.isDict (lim : Nat) (b : BlockOut) : Bool := decide (0 < b.de) && decide (b.de < lim)
 
+/-! ### block bookkeeping of `AppendWipToSegfile` (all columns of the segment together)
+
+Mirrors the step order of AppendWipToSegfile (segstore.go:547-713): nothing happens when the WIP block is empty
+(`maxIdx = 0`; the timestamp column has bytes as soon as the block has a record); otherwise the columns are written,
+`flushBlockSummary(numBlocks)` appends (block number, RecCount) to the `.bsu` file, then `FlushSegStats`, the running
+segmeta, and only then `resetWipBlock` and `numBlocks += 1`.  An error of FlushSegStats returns BEFORE the reset.
+As the code is now (fix PENDING-FLUSHSEGSTATS) FlushSegStats has no error for "nothing to write"; before, it
+returned "no segstats to flush" when `AllSst` was empty and no column other than the timestamp had bytes — i.e. when
+every event of the segment so far carried only a timestamp — kept as `fixed = false` / the `…Old` names.
+Reader: `ReadBlockSummaries` appends the entries of the file in file order; the searchers take the summary of
+block `b` from POSITION `b` of that list. -/
+
+/-- what an event carries besides its timestamp: nothing, only null values (column bytes, no statistics), or at
+least one value (an entry in `AllSst`) -/
+inductive EvKind where
+  | bare | nulls | vals
+deriving Repr, DecidableEq
+
+structure BlkSt where
+  numBlocks : Nat := 0          -- SegStore.numBlocks
+  blkRec : Nat := 0             -- wipBlock.blockSummary.RecCount
+  colBytes : Bool := false      -- some colWip other than the timestamp has cbufidx > 0
+  hasStats : Bool := false      -- len(SegStore.AllSst) > 0 (per segment)
+  bsu : List (Nat × Nat) := []  -- the entries appended to the .bsu file: (block number, RecCount)
+deriving Repr, DecidableEq
+
+def BlkSt.ev (st : BlkSt) (k : EvKind) : BlkSt :=
+  { st with blkRec := st.blkRec + 1, colBytes := st.colBytes || decide (k ≠ .bare),
+            hasStats := st.hasStats || decide (k = .vals) }
+
+def BlkSt.flushWith (fixed : Bool) (st : BlkSt) : BlkSt :=
+  if st.blkRec = 0 then st
+  else
+    let st1 := { st with bsu := st.bsu ++ [(st.numBlocks, st.blkRec)] }
+    if !fixed && !st.hasStats && !st.colBytes then st1      -- FlushSegStats error: return before resetWipBlock
+    else { st1 with blkRec := 0, colBytes := false, numBlocks := st.numBlocks + 1 }
+
+inductive BlkOp where
+  | ev (k : EvKind)
+  | flush
+deriving Repr, DecidableEq
+
+def BlkSt.opWith (fixed : Bool) (st : BlkSt) : BlkOp → BlkSt
+  | .ev k => st.ev k
+  | .flush => st.flushWith fixed
+
+def runBlkWith (fixed : Bool) (ops : List BlkOp) : BlkSt := ops.foldl (BlkSt.opWith fixed) {}
+def runBlk (ops : List BlkOp) : BlkSt := runBlkWith true ops
+def runBlkOld (ops : List BlkOp) : BlkSt := runBlkWith false ops
+
+/-- specification: the record counts of the non-empty blocks cut by the flushes, in order (and the open rest) -/
+def cutStep (acc : List Nat × Nat) : BlkOp → List Nat × Nat
+  | .ev _ => (acc.1, acc.2 + 1)
+  | .flush => if acc.2 = 0 then acc else (acc.1 ++ [acc.2], 0)
+
+def cutBlocks (ops : List BlkOp) : List Nat × Nat := ops.foldl cutStep ([], 0)
+
+/-- the record count the searchers use for block `b`: position `b` of the list read from the .bsu file -/
+def BlkSt.readerRecCount (st : BlkSt) (b : Nat) : Option Nat := (st.bsu[b]?).map (·.2)
+
 end SigModel.Tlv
